@@ -21,7 +21,7 @@ import (
 type pairInst struct {
 	name     string
 	classify func(call *ssa.CallCommon) (delta int, what string) // 0 = not relevant
-	observe  func(call *ssa.CallCommon) string                  // "" = not observed; depth is recorded at the call
+	observe  func(call *ssa.CallCommon) string                   // "" = not observed; depth is recorded at the call
 }
 
 type pairObs struct {
@@ -36,9 +36,9 @@ type pairState struct {
 }
 
 type pairSite struct {
-	pos   token.Pos
-	what  string
-	delta int
+	pos      token.Pos
+	what     string
+	delta    int
 	deferred bool
 }
 
